@@ -524,6 +524,30 @@ def check_C10(tier, seed):
     return finish(rep)
 
 
+def check_C02(tier, seed):
+    rep = Report("C02", tier, seed)
+    rng = random.Random(seed)
+    quick = tier == "quick"
+    r = run_mc("MC_Bindings.tla", "MC_Bindings.cfg", workers=4, consts={"Slice": '"quick"' if quick else '"all"'})
+    rep.add_mc("MC_Bindings", r, "complete resource table: specified entry synthesis satisfies the transcribed create_bind_group_layout and check_binding_use rules")
+    rep.add_selftest("MC_Bindings_mut(atomic storage textures emitted as ReadWrite)", run_mc("MC_Bindings.tla", "MC_Bindings_mut.cfg", workers=2, expect_violation=True))
+    rep.exhaustive = not quick
+    cases = cases_from_S(r.cases, "row", "resource-table", vary_validate=False)
+    want = {"wgpu"}
+    keep = ["groups", "push_stages", "compute", "fns", "overrides"]
+    compiled_and_judge(rep, "C02", cases, "table", "realrun", want, keep=["groups"])
+    # random shaders: sparse indices, several groups, stage subsets, helper chains
+    rc = sparse_group_cases(rng, 120 if quick else 2500)
+    compiled_and_judge(rep, "C02", rc, "random", "realrun", want, keep=["groups"])
+    # visibility as wgpu sees it: the context slice of the stage analysis (access / call at every nesting) through real pipeline creation
+    r2 = run_mc("MC_StagesCtx.tla", "MC_StagesCtx.cfg", workers=8, consts={"DA": "1", "DC": "1" if quick else "2", "Memo": "TRUE" if MEMO else "FALSE"})
+    rep.add_mc("MC_StagesCtx", r2, "exported shaders validated by real pipeline creation")
+    ctx = cases_from_S(r2.cases[::(2 if quick else 1)], "ctx", "stages-ctx", vary_validate=False)
+    compiled_and_judge(rep, "C02", ctx, "ctx", "realrun", want, keep=["groups"])
+    rep.assumptions.append("device: wgpu-core 24.0.5 on wgpu-hal's no-op backend with every feature enabled (render pipelines: without TEXTURE_ADAPTER_SPECIFIC_FORMAT_FEATURES), limits max_bind_groups=8; float textures filterable / samplers filtering as documented")
+    return finish(rep)
+
+
 def check_C05(tier, seed):
     import compiled
     quick = tier == "quick"
@@ -668,6 +692,8 @@ def check_C07(tier, seed):
             more.append(d)
     compiled_and_judge(rep, "C07", cases + more, "exported", "shim", {"entries", "layout"}, keep=["mods"])
     compiled_and_judge(rep, "C07", rcases, "random", "shim", {"entries", "layout"}, keep=["mods"])
+    # wgpu's own vertex-buffer and vertex-input validation: real create_render_pipeline on the no-op device
+    compiled_and_judge(rep, "C07", cases + more[::3], "wgpu", "realrun", {"wgpu"}, keep=["mods"], enforce="C07W")
     return finish(rep)
 
 
@@ -732,4 +758,4 @@ MEMO = True
 # Does the type closure return early on a type it has already inserted? (the code does since the C20 fix)
 EARLY = True
 
-CHECKS = {"C11": check_C11, "C03": check_C03, "C08": check_C08, "C20": check_C20, "C13": check_C13, "C09": check_C09, "C17": check_C17, "C18": check_C18, "C19": check_C19, "C06": check_C06, "C04": check_C04, "C14": check_C14, "C07": check_C07, "C12": check_C12, "C15": check_C15, "C16": check_C16, "C05": check_C05, "C01": check_C01, "C10": check_C10}
+CHECKS = {"C11": check_C11, "C03": check_C03, "C08": check_C08, "C20": check_C20, "C13": check_C13, "C09": check_C09, "C17": check_C17, "C18": check_C18, "C19": check_C19, "C06": check_C06, "C04": check_C04, "C14": check_C14, "C07": check_C07, "C12": check_C12, "C15": check_C15, "C16": check_C16, "C05": check_C05, "C01": check_C01, "C10": check_C10, "C02": check_C02}
